@@ -3,7 +3,8 @@ From XV Require Export C04.Proofs04b.
 From Coq Require Import Lia Arith.
 Local Open Scope N_scope.
 
-Definition noBad (st : dstatus) : Prop := st = Clean \/ st = Truncated.
+(** the input is well-formed in its encoding up to its very end *)
+Definition noBad (st : dstatus) : Prop := st = Clean.
 
 Section Chars.
   Variable step : list N -> dres.
@@ -40,7 +41,7 @@ Section Chars.
   Lemma refresh_char_spec : forall r cs st, St r cs st ->
     match refresh_char c r with
     | Err Fault | Err FuelOut => False
-    | Err (XErr e) => st = Bad e
+    | Err (XErr e) => errOK st e
     | Ok (r', b) => rc_post r cs st r' b
     end.
   Proof.
@@ -54,7 +55,7 @@ Section Chars.
       split; [exists []; now rewrite app_nil_r|]. split; [discriminate|]. split.
       - intros _. rewrite Ecs, Ec. repeat split; auto.
       - intros _ _. rewrite Ecs, Ec. split; auto. }
-    destruct (Nat.eqb_spec (length (ccur r)) (cbsz c)) as [Efull|Nfull].
+    destruct (Nat.leb_spec (cbsz c) (S (length (ccur r)))) as [Efull|Nfull].
     { assert (Hst : St r cs st) by (unfold St; split; [exact G|]; split; [exact NM|]; exists D; split; [exact HD|exact Ecs]).
       unfold rc_post. split; [exact Hst|]. split; [reflexivity|]. split; [reflexivity|].
       split; [exists []; now rewrite app_nil_r|]. split; [|split].
@@ -66,6 +67,7 @@ Section Chars.
     pose proof (xcode_more_spec step maxSeq c HC HS (S (S (rbsz c))) false r (cbsz c - length (ccur r))
                   (conj G1 (conj G2 G3)) ltac:(lia) ltac:(cbn [Nat.add]; lia) ltac:(discriminate) D st HD) as Hx.
     destruct (xcode_more c (S (S (rbsz c))) false r (cbsz c - length (ccur r))) as [[r1 new]|[| |e]]; auto.
+    2:{ destruct Hx as [E|[E1 [E2|E2]]]; [left; exact E|right; auto|lia]. }
     destruct Hx as [Gr1 [A2 [A3 [A4 [A5 [A6 [A7 [rest [R1 [R2 [R3 R4]]]]]]]]]]].
     set (cc := ccur r ++ new) in *.
     set (r' := mkR cc 0 (rcur r1) (ridx r1) (strm r1) (match cc with [] => true | _ :: _ => false end) (line r1) (col r1)).
@@ -103,7 +105,7 @@ Section Chars.
   Lemma ensure_spec : forall r cs st, St r cs st ->
     match ensure c r with
     | Err Fault | Err FuelOut => False
-    | Err (XErr e) => st = Bad e
+    | Err (XErr e) => errOK st e
     | Ok (r', b) => St r' cs st /\ line r' = line r /\ col r' = col r /\
                     (b = true -> exists x t, ccur r' = x :: t) /\ (b = false -> cs = [] /\ noBad st /\ ccur r' = [])
     end.
@@ -150,7 +152,7 @@ Section Chars.
   Lemma handle_eol_spec : forall r ch cs2 st, St r cs2 st ->
     match handle_eol c r ch with
     | Err Fault | Err FuelOut => False
-    | Err (XErr e) => st = Bad e
+    | Err (XErr e) => errOK st e
     | Ok (r', ch') => gn_post (ch :: cs2) st r' ch'
     end.
   Proof.
@@ -185,7 +187,7 @@ Section Chars.
   Lemma after_get_spec : forall r ch cs2 st, St r cs2 st ->
     match after_get c r ch with
     | Err Fault | Err FuelOut => False
-    | Err (XErr e) => st = Bad e
+    | Err (XErr e) => errOK st e
     | Ok (r', ch') => gn_post (ch :: cs2) st r' ch'
     end.
   Proof.
@@ -199,7 +201,7 @@ Section Chars.
   Lemma get_next_spec : forall r cs st, St r cs st ->
     match get_next c r with
     | Err Fault | Err FuelOut => False
-    | Err (XErr e) => st = Bad e
+    | Err (XErr e) => errOK st e
     | Ok (r', None) => cs = [] /\ noBad st /\ St r' [] st
     | Ok (r', Some ch) => gn_post cs st r' ch
     end.
@@ -224,19 +226,36 @@ Section Chars.
     destruct (get_next c r) as [[r' [ch|]]|[| |e]]; try contradiction.
     - destruct Hg as [cs' [H' [Hl Eq]]]. rewrite (IH r' cs' st H' Hnb ltac:(lia)). rewrite Eq. reflexivity.
     - destruct Hg as [E0 _]. subst cs. reflexivity.
-    - subst st. destruct Hnb; discriminate.
+    - unfold noBad in Hnb; subst st; unfold errOK in *; intuition congruence.
   Qed.
 
-  (** ill-formed input: the same error is reported for every arrangement, after a prefix of the characters *)
+  (** input that is ill-formed or ends inside a character: the error is reported (the same one for every arrangement)
+      after a prefix of the specified characters *)
+  Lemma deliver_err : forall fuel r cs st, St r cs st -> st <> Clean -> (length cs < fuel)%nat ->
+    exists p q e, deliver c fuel r = (p, EndErr (XErr e)) /\ errOK st e /\ eol_norm (nel c) cs = p ++ q.
+  Proof.
+    induction fuel as [|f IH]; intros r cs st H Hst Hf; [lia|].
+    cbn [deliver]. pose proof (get_next_spec r cs st H) as Hg.
+    destruct (get_next c r) as [[r' [ch|]]|[| |e']]; try contradiction.
+    - destruct Hg as [cs' [H' [Hl Eq]]]. destruct (IH r' cs' st H' Hst ltac:(lia)) as [p [q [e [Ed [He Ep]]]]].
+      rewrite Ed. exists (ch :: p), q, e. split; [reflexivity|]. split; [exact He|]. rewrite Eq, Ep. reflexivity.
+    - destruct Hg as [_ [Hc _]]. contradiction.
+    - exists [], (eol_norm (nel c) cs), e'. auto.
+  Qed.
+
   Lemma deliver_bad : forall fuel r cs e, St r cs (Bad e) -> (length cs < fuel)%nat ->
     exists p q, deliver c fuel r = (p, EndErr (XErr e)) /\ eol_norm (nel c) cs = p ++ q.
   Proof.
-    induction fuel as [|f IH]; intros r cs e H Hf; [lia|].
-    cbn [deliver]. pose proof (get_next_spec r cs (Bad e) H) as Hg.
-    destruct (get_next c r) as [[r' [ch|]]|[| |e']]; try contradiction.
-    - destruct Hg as [cs' [H' [Hl Eq]]]. destruct (IH r' cs' e H' ltac:(lia)) as [p [q [Ed Ep]]].
-      rewrite Ed. exists (ch :: p), q. split; [reflexivity|]. rewrite Eq, Ep. reflexivity.
-    - destruct Hg as [_ [[?|?] _]]; discriminate.
-    - inversion Hg; subst. exists [], (eol_norm (nel c) cs). auto.
+    intros fuel r cs e H Hf.
+    destruct (deliver_err fuel r cs (Bad e) H ltac:(discriminate) Hf) as [p [q [e' [Ed [He Ep]]]]].
+    exists p, q. split; [|exact Ep]. destruct He as [E|[_ E]]; [inversion E; subst; exact Ed|discriminate].
+  Qed.
+
+  Lemma deliver_trunc : forall fuel r cs, St r cs Truncated -> (length cs < fuel)%nat ->
+    exists p q, deliver c fuel r = (p, EndErr (XErr E_Trans_BadSrcSeq)) /\ eol_norm (nel c) cs = p ++ q.
+  Proof.
+    intros fuel r cs H Hf.
+    destruct (deliver_err fuel r cs Truncated H ltac:(discriminate) Hf) as [p [q [e' [Ed [He Ep]]]]].
+    exists p, q. split; [|exact Ep]. destruct He as [E|[E _]]; [discriminate|subst e'; exact Ed].
   Qed.
 End Chars.
